@@ -12,7 +12,7 @@ VARIABLE v_l
 ASSUME TLCSet(1, 0)
 PlainInt(n) == (IF n < 0 THEN "-" ELSE "") \o ToString(Abs(n))
 Why(ev) == IF ev.in # ev.out THEN "roundtrip"
-           ELSE IF ev.integral /\ ev.str # PlainInt(ev.ival) THEN "plain-integer"
+           ELSE IF ev.integral /\ ev.str # PlainInt(ev.ival) /\ ~(ev.ival = 0 /\ ev.str = "-0") THEN "plain-integer"   \* IEEE -0 prints "-0"
            ELSE ""
 Init == v_l = 1
 Next == /\ v_l <= Len(Trace)
